@@ -55,9 +55,10 @@ Backed(i, S) ==
 AInit == /\ store = {} /\ links = <<>> /\ now = 1 /\ v = Idle
          /\ inv \in InvDom
 
-Issue == /\ Cardinality(store) < MaxStore /\ v = Idle
-         /\ \E d \in Dlgs : d \notin store /\ store' = store \cup {d}
-         /\ UNCHANGED <<inv, links, now, v>>
+IssueOf(d) == /\ Cardinality(store) < MaxStore /\ v = Idle
+              /\ d \in Dlgs /\ d \notin store /\ store' = store \cup {d}
+              /\ UNCHANGED <<inv, links, now, v>>
+Issue == \E d \in Dlgs : IssueOf(d)
 
 MissingLink == [missing |-> TRUE, iss |-> "A", aud |-> "A", sub |-> "A", cmd |-> TopCmd, pol |-> <<>>, nbf |-> -1, exp |-> -1]
 
